@@ -57,7 +57,7 @@ type slSpec struct {
 	Starts   []int       `json:"starts"`
 	Modes    []string    `json:"modes"`    // per plugin: ok | syncerr (its Synchronize handler fails) | syncdrop (it disconnects during synchronisation) | syncerr1 (its handler fails the first time only) | rtfail (the runtime's SyncFn fails after the callback returned, the first time only)
 	DblSeed  int64       `json:"dbl_seed"` // PRNG of the choice which blocks are released twice, and how
-	Probe    int         `json:"probe"`    // 0 none, 1 two blocks held / one released twice, 2 released, ANOTHER block taken, released again, 3 a block held for a multiple of the request time-out with a registration pending
+	Probe    int         `json:"probe"`    // 0 none, 4 a waiting registration whose plugin goes away, 5 a block taken before Start and held across it, 1 two blocks held / one released twice, 2 released, ANOTHER block taken, released again, 3 a block held for a multiple of the request time-out with a registration pending
 	Restarts []slRestart `json:"restarts"` // after the stream: plugins that stop and register again under the same name
 }
 
@@ -132,6 +132,7 @@ type slRun struct {
 	twice      int32 // blocks released a second time
 	twiceOther int32 // ... while another block was held
 	twiceLate  int32 // ... after another goroutine had acquired a block in between
+	starting   int32 // Adaptation.Start in progress: its SyncFn invocation is start-up, not a registration
 	abandon    int32 // a violation was seen: no further Unblock is issued, the run is dumped as it stands
 	stalled    int32
 	once       sync.Once
@@ -170,6 +171,11 @@ func (r *slRun) logEv(e logEv) {
 
 // syncFn is the runtime side of a plugin synchronisation: it must never overlap a held sync block.
 func (r *slRun) syncFn(ctx context.Context, cb adaptation.SyncCB) error {
+	if atomic.LoadInt32(&r.starting) != 0 {
+		// Start synchronises the (here: no) pre-installed plugins once: not part of the log, not judged
+		_, err := cb(ctx, nil, nil)
+		return err
+	}
 	atomic.AddInt32(&r.inSync, 1)
 	if h := atomic.LoadInt32(&r.held); h != 0 {
 		r.violation("SyncFn entered while %d sync block(s) held", h)
@@ -211,9 +217,19 @@ func (r *slRun) syncFn(ctx context.Context, cb adaptation.SyncCB) error {
 		r.sessOK = map[int]bool{}
 	}
 	r.sessOK[k] = err == nil
+	// an invocation whose snapshot reached no plugin (the plugin was gone before its turn came: probe 4) is not
+	// one of the synchronisations the run waits for
+	named := false
+	for _, p := range r.plugins {
+		if p.cur.sess == k {
+			named = true
+		}
+	}
 	r.mu.Unlock()
 	atomic.AddInt32(&r.inSync, -1)
-	atomic.AddInt32(&r.rets, 1)
+	if named {
+		atomic.AddInt32(&r.rets, 1)
+	}
 	return err
 }
 
@@ -510,6 +526,52 @@ func (r *slRun) probeHeldLong(startPlugin func(j int) chan error) (pending chan 
 	return pending
 }
 
+// probe 4: a block is held; plugin 1 ("A") connects, is configured and waits for the exclusive section;
+// A goes away (its own side closes the connection) WHILE it is waiting; plugin 0 ("B") connects and waits,
+// too; then the block is released.  B's registration must complete and blocks must be granted as ever
+// (the rest of the run; a runtime that is stuck is reported by the watchdog).
+func (r *slRun) probeAbandonedWaiter(startPlugin func(j int) chan error) (pending chan error) {
+	bh := r.acquire("gh")
+	pa := r.plugins[1]
+	select {
+	case err := <-startPlugin(1):
+		if err != nil {
+			r.herr.Store(fmt.Errorf("stub 1 start: %w", err))
+		}
+	case <-time.After(2 * time.Second):
+	}
+	time.Sleep(5 * time.Millisecond)
+	before := atomic.LoadInt32(&pa.closes)
+	atomic.AddInt32(&pa.stops, 1)
+	pa.stub.Stop()
+	for t0 := time.Now(); atomic.LoadInt32(&pa.closes) == before; time.Sleep(100 * time.Microsecond) {
+		if time.Since(t0) > 10*time.Second {
+			r.herr.Store(fmt.Errorf("stub of %s did not report its connection closed within 10s of Stop", pa.name))
+			break
+		}
+	}
+	time.Sleep(20 * time.Millisecond) // the runtime's end of the connection notices, too
+	// B connects: the accept loop serves connections one after the other, so B is queued behind A's turn (or
+	// is configured and waits itself, if the runtime has let go of A); its Start returns later
+	pending = startPlugin(0)
+	time.Sleep(10 * time.Millisecond)
+	r.create("gh", "gh-c0")
+	r.keep("gh", "gh-c0")
+	r.release("gh", bh)
+	return pending
+}
+
+// probe 5: the block was taken BEFORE Adaptation.Start and is still held; a plugin connects; the request
+// is relayed; the block must keep the plugin out until it is released.
+func (r *slRun) probeHeldAcrossStart(bs *adaptation.PluginSyncBlock, startPlugin func(j int) chan error) (pending chan error) {
+	pending = r.waitConfigured(startPlugin(0))
+	r.create("gs", "gs-c0")
+	r.window()
+	r.keep("gs", "gs-c0")
+	r.release("gs", bs)
+	return pending
+}
+
 // buildCase: call with r.mu held.
 func (r *slRun) buildCase(abandoned bool) *slCase {
 	// resolve sync sessions to plugin instances through what the plugins received
@@ -519,6 +581,21 @@ func (r *slRun) buildCase(abandoned bool) *slCase {
 			for _, k := range s.allSess {
 				sessName[k] = s.inst
 			}
+		}
+	}
+	// a SyncFn invocation that failed without reaching any plugin is the turn of a plugin that went away while it
+	// was waiting (mode pendrop), in order
+	anon := []int{}
+	for _, e := range r.log {
+		if _, ok := sessName[e.sess]; e.Kind == "enter" && !ok {
+			anon = append(anon, e.sess)
+		}
+	}
+	for _, p := range r.plugins {
+		if p.mode == "pendrop" && len(anon) > 0 && len(p.sessions[0].allSess) == 0 {
+			sessName[anon[0]] = p.sessions[0].inst
+			p.sessions[0].allSess = []int{anon[0]}
+			anon = anon[1:]
 		}
 	}
 	okSess := map[int]bool{}
@@ -551,6 +628,9 @@ func (r *slRun) buildCase(abandoned bool) *slCase {
 		for k, s := range p.sessions {
 			// rtfail / syncerr1: connected to the end, and registered iff the runtime's LAST word on them was success
 			// (the unchanged runtime gives them one synchronisation, which fails)
+			if p.mode == "pendrop" && len(s.allSess) == 0 {
+				continue // it went away before its turn and the runtime never ran it through SyncFn: not in the log, not observed
+			}
 			connected := p.mode == "ok" || p.mode == "rtfail" || p.mode == "syncerr1"
 			live := connected && !s.stopped && k == len(p.sessions)-1
 			synced := s.sess >= 0 && okSess[s.sess]
@@ -563,7 +643,7 @@ func (r *slRun) buildCase(abandoned bool) *slCase {
 			if live && p.mode == "ok" && s.started && quiet {
 				cs.Must = append(cs.Must, s.inst)
 			}
-			if s.syncs > 1 || (!abandoned && s.syncs != 1) {
+			if s.syncs > 1 || (!abandoned && s.syncs != 1 && p.mode != "pendrop") {
 				cs.Viol = append(cs.Viol, fmt.Sprintf("plugin %s was synchronized %d times", s.inst, s.syncs))
 			}
 			if k > 0 {
@@ -640,15 +720,17 @@ func oneSyncLockRun(spec slSpec, out string) (*slCase, error) {
 		return nil, err
 	}
 	r.a = a
-	if err := a.Start(); err != nil {
+	var early *adaptation.PluginSyncBlock
+	if spec.Probe == 5 { // a block taken BEFORE Start and held across it
+		early = r.acquire("gs")
+	}
+	atomic.StoreInt32(&r.starting, 1)
+	err = a.Start()
+	atomic.StoreInt32(&r.starting, 0)
+	if err != nil {
 		return nil, err
 	}
 	defer a.Stop()
-	// Start synchronises the (here: no) pre-installed plugins through SyncFn once; that is start-up,
-	// not a registration: it is not part of the log
-	r.mu.Lock()
-	r.log = nil
-	r.mu.Unlock()
 	base := atomic.LoadInt32(&r.rets)
 	go r.watchdog(base)
 
@@ -715,6 +797,10 @@ func oneSyncLockRun(spec slSpec, out string) (*slCase, error) {
 			probe = r.probeInterleaved
 		case 3:
 			probe = r.probeHeldLong
+		case 4:
+			probe = r.probeAbandonedWaiter
+		case 5:
+			probe = func(sp func(j int) chan error) chan error { return r.probeHeldAcrossStart(early, sp) }
 		}
 		if pending := probe(startPlugin); pending != nil {
 			pwg.Add(1)
@@ -727,6 +813,9 @@ func oneSyncLockRun(spec slSpec, out string) (*slCase, error) {
 		}
 	}
 	for j := first; j < P; j++ {
+		if spec.Modes[j] == "pendrop" {
+			continue // started and stopped by probe 4; whether the runtime still runs it through SyncFn is not counted on
+		}
 		pwg.Add(1)
 		expected++
 		go func(j int) {
@@ -979,7 +1068,7 @@ func driveSyncLock(c *hx.Ctx) error {
 	for i := 0; i < runs && failing < slMaxFailing && !stalled; i++ {
 		R := 2 + rnd.Intn(c.Pick(4, 8))
 		P := 1 + rnd.Intn(c.Pick(5, 9))
-		if i < 7 && P < 3 {
+		if i < 9 && P < 3 {
 			P = 3
 		}
 		N := c.Pick(6, 12) + rnd.Intn(c.Pick(10, 24))
@@ -1029,6 +1118,12 @@ func driveSyncLock(c *hx.Ctx) error {
 		}
 		if i == 4 || (i > 4 && rnd.Intn(c.Pick(40, 25)) == 0) { // one second each: the fifth run, and now and then
 			probe = 3
+		}
+		if x := rnd.Intn(12); i == 7 || (i > 8 && x == 0 && P >= 2) {
+			probe = 4
+			modes[1] = "pendrop"
+		} else if i == 8 || (i > 8 && x == 1) {
+			probe = 5
 		}
 		var restarts []slRestart
 		switch x := rnd.Intn(6); {
@@ -1109,7 +1204,7 @@ func driveSyncLock(c *hx.Ctx) error {
 		if overlapped == 0 {
 			c.HarnessError("synclock: no plugin registered while containers were being created")
 		}
-		if twiceOther == 0 || twiceLate == 0 || probes[1] == 0 || probes[2] == 0 || probes[3] == 0 {
+		if twiceOther == 0 || twiceLate == 0 || probes[1] == 0 || probes[2] == 0 || probes[3] == 0 || probes[4] == 0 || probes[5] == 0 {
 			c.HarnessError("synclock: blocks released twice while another block was held: %d, after another goroutine acquired: %d, probes: %v", twiceOther, twiceLate, probes)
 		}
 		if syncFails < 2 {
@@ -1121,6 +1216,6 @@ func driveSyncLock(c *hx.Ctx) error {
 	} else {
 		c.Count("synclock.failing_runs", failing)
 	}
-	c.Stats.Rule = "synclock: every run in a child process (a runtime that dies inside its sync lock is an observation): R goroutines x N CreateContainer requests inside BlockPluginSync/Unblock on one real Adaptation while P real stubs register at PRNG-chosen points of the creation stream (every 8th run: all at once) and a noise goroutine fires StartContainer outside any block; about 25% of the plugins other than the first FAIL their synchronisation (handler error every time or the first time only, the plugin disconnects during it, or the runtime's own SyncFn returns an error AFTER the callback delivered the snapshot — the first time only: the unchanged runtime never synchronises an instance twice; po_snapshot is everything an instance was sent) and the others must still be registered and blocks obtainable; about 45% of the blocks are released TWICE (explicit Unblock plus a deferred one, the use the doc comment allows), a third of those only after another goroutine has acquired a block; the held-block counter and the log count a block as released at its first Unblock only; half of the runs start with a probe (1: two blocks held, a plugin waiting, the first released twice while the second is between relaying its creation and its bookkeeping; 2: the first block released, THEN a second one taken, a plugin waiting, then the first one's stale second Unblock) that must keep the plugin out for a further 100 ms; a few runs start with probe 3: a block held for 1 s with a registration pending while the plugin request time-out is 300 ms (set from inside the plugin's Configure handler, reset before the release: no request of the unchanged runtime runs under it), after which the registration must complete like any other; half of the runs end with the first plugin disconnecting and registering again under the same index and name with no request in between (a third of those: one request in between), followed by creations the fresh instance must be sent; a run in which nothing is logged for 20 s is dumped as it stands (stuck registrations / blocks are an observation); non-trivial = some plugin completed registration with a non-empty snapshot and more than two creation requests"
+	c.Stats.Rule = "synclock: every run in a child process (a runtime that dies inside its sync lock is an observation): R goroutines x N CreateContainer requests inside BlockPluginSync/Unblock on one real Adaptation while P real stubs register at PRNG-chosen points of the creation stream (every 8th run: all at once) and a noise goroutine fires StartContainer outside any block; about 25% of the plugins other than the first FAIL their synchronisation (handler error every time or the first time only, the plugin disconnects during it, or the runtime's own SyncFn returns an error AFTER the callback delivered the snapshot — the first time only: the unchanged runtime never synchronises an instance twice; po_snapshot is everything an instance was sent) and the others must still be registered and blocks obtainable; about 45% of the blocks are released TWICE (explicit Unblock plus a deferred one, the use the doc comment allows), a third of those only after another goroutine has acquired a block; the held-block counter and the log count a block as released at its first Unblock only; half of the runs start with a probe (1: two blocks held, a plugin waiting, the first released twice while the second is between relaying its creation and its bookkeeping; 2: the first block released, THEN a second one taken, a plugin waiting, then the first one's stale second Unblock) that must keep the plugin out for a further 100 ms; a few runs start with probe 3: a block held for 1 s with a registration pending while the plugin request time-out is 300 ms (set from inside the plugin's Configure handler, reset before the release: no request of the unchanged runtime runs under it), after which the registration must complete like any other; probe 4: a block held, plugin A configured and waiting, A's own side closes the connection while it waits, plugin B waits too, release — B and everybody later must be registered and blocks granted; probe 5: a block taken BEFORE Adaptation.Start, held across it, a plugin connects, the creation is relayed, 100 ms window, bookkeeping, release; half of the runs end with the first plugin disconnecting and registering again under the same index and name with no request in between (a third of those: one request in between), followed by creations the fresh instance must be sent; a run in which nothing is logged for 20 s is dumped as it stands (stuck registrations / blocks are an observation); non-trivial = some plugin completed registration with a non-empty snapshot and more than two creation requests"
 	return nil
 }
